@@ -736,6 +736,8 @@ package antlr
 //@   ensures rules: RInv(thisListener) && (old(thisListener.Grl) != nil ==> thisListener.Grl != nil)
 //@   ensures[C17] saliencevalue: fnok_ParseInt(antlr_GetText(ctx), 0, 64) && old(thisListener.Stack.length) > 0 && old(thisListener.Stack.top.value) != nil && typeof(old(thisListener.Stack.top.value)) == typeid(*ast.Salience) && fn_ParseInt_0(antlr_GetText(ctx), 0, 64) >= -2147483648 && fn_ParseInt_0(antlr_GetText(ctx), 0, 64) <= 2147483647 ==> as(old(thisListener.Stack.top.value), *ast.Salience).SalienceValue == fn_ParseInt_0(antlr_GetText(ctx), 0, 64)
 //@   ensures[C05,C17] literalkind: fnok_ParseInt(antlr_GetText(ctx), 0, 64) && old(thisListener.Stack.length) > 0 && old(thisListener.Stack.top.value) != nil && typeof(old(thisListener.Stack.top.value)) == typeid(*ast.Constant) ==> as(old(thisListener.Stack.top.value), *ast.Constant).Value.kind == 6
+// C05: the constant's value is the literal read with base detection by prefix (0x.. hex, 0.. octal, else decimal) - ParseInt base 0
+//@   ensures[C05,C17] literalvalue: fnok_ParseInt(antlr_GetText(ctx), 0, 64) && old(thisListener.Stack.length) > 0 && old(thisListener.Stack.top.value) != nil && typeof(old(thisListener.Stack.top.value)) == typeid(*ast.Constant) ==> rv_int(as(old(thisListener.Stack.top.value), *ast.Constant).Value) == fn_ParseInt_0(antlr_GetText(ctx), 0, 64)
 //@   ensures[C17,C20] literalerr: !fnok_ParseInt(antlr_GetText(ctx), 0, 64) ==> thisListener.StopParse && len(thisListener.ErrorCallback.Errors) > old(len(thisListener.ErrorCallback.Errors))
 //@ func (thisListener *GruleV3ParserListener) EnterFloatLiteral(ctx) ()
 //@   serves C17 C20
